@@ -14,7 +14,7 @@ Two findings came out of these proofs (see `known/C01.json`):
 * **C01-F2** (fixed in /repo by 821b239, `proposed_fixes/C01-1.diff`): the file is deleted / overwritten /
   loses its `models` table *after* this process put it into `parse.initialized_dbs`; without the recovery
   handler the next `parse` raises.  Model flag `Cfg.recover`; counterexample `damaged_while_initialised_raises`.
-* **C01-F3** (open, `proposed_fixes/C01-2.diff`): the `models` table is replaced, after initialisation, by one on
+* **C01-F3** (fixed in /repo by 921daaa, `proposed_fixes/C01-2.diff`): the `models` table is replaced, after initialisation, by one on
   which the lookup works but the insert does not (an additional NOT NULL column): the recovery handler only
   guards the lookup, `parse` raises `IntegrityError` at the cache write.  Model flag `Cfg.writeTolerant`;
   counterexample `write_damage_raises`.
@@ -264,23 +264,19 @@ theorem caught_classes_cover : CaughtAll currentCfg :=
 /-- The current `parse` has the handler that re-validates a database it can no longer query (fix 821b239). -/
 theorem current_parse_recovers : currentCfg.recover = true := by decide
 
-/-- **C01 for the code as it is now** — *partial* while C01-F3 is open: every parse of every finite history
-    returns the uncached result, for any damage at any time except the `extraCol` replacement of `models` while
-    the process holds the database initialised. -/
-theorem current_code_transparent_partial (ops : List Op) (s : St) (h : RowInv pf s) (hu : Usable s)
-    (hadm : ∀ op ∈ ops, Admissible pf op) (hund : UndamagedWrite currentCfg pf s ops) :
+/-- The current `parse` does not propagate a failure of the cache write (fix 921daaa). -/
+theorem current_parse_tolerates_write_failure : currentCfg.writeTolerant = true := by decide
+
+/-- **C01 for the code as it is now**: with the facts the translator reads off the current sources, every parse of
+    every finite history — any interleaving of parses, reloads, version changes, clock advances and any damage to
+    entries, layouts or the whole file at any time — returns the uncached result: `none` iff syntax error, never an
+    exception. -/
+theorem current_code_transparent (ops : List Op) (s : St) (h : RowInv pf s) (hadm : ∀ op ∈ ops, Admissible pf op) :
     Transparent currentCfg pf s ops :=
-  history_transparent_recover_partial caught_classes_cover current_parse_recovers ops s h hu hadm hund
+  history_transparent caught_classes_cover current_parse_recovers current_parse_tolerates_write_failure ops s h hadm
 
-example : RowInv demoPf (St.initial 1000) ∧ Usable (St.initial 1000) ∧ (∀ op ∈ demoOps, Admissible demoPf op) ∧
-    UndamagedWrite currentCfg demoPf (St.initial 1000) demoOps :=
-  ⟨(by intro r hr; simp [St.initial, rowsOf] at hr), (by intro h; cases h), (by decide),
-   (by simp [demoOps, UndamagedWrite, damagingWrite])⟩
-
-/-- … and complete as soon as the translator finds the tolerant cache write (proposed fix C01-2) in the sources. -/
-theorem current_code_transparent (hw : currentCfg.writeTolerant = true) (ops : List Op) (s : St) (h : RowInv pf s)
-    (hadm : ∀ op ∈ ops, Admissible pf op) : Transparent currentCfg pf s ops :=
-  history_transparent caught_classes_cover current_parse_recovers hw ops s h hadm
+example : RowInv demoPf (St.initial 1000) ∧ (∀ op ∈ demoOps, Admissible demoPf op) :=
+  ⟨(by intro r hr; simp [St.initial, rowsOf] at hr), (by decide)⟩
 
 /-- With only `pickle.UnpicklingError` caught (the code before 9e3ac59) an empty blob escapes as `EOFError`. -/
 theorem narrow_except_raises :
